@@ -2,8 +2,8 @@
    Only statements, closed by [exact lemma], with Print Assumptions beneath. *)
 From Coq Require Import String List NArith ZArith Bool.
 From J5V.lib Require Import Text Outcome.
-From J5V.model Require Import BclLexer BclParser BclFmt.
-From J5V.proofs Require Import BclPosProofs BclLexerProofs BclParserProofs BclTextProofs BclFmtProofs BclFmtFullProofs BclLspProofs.
+From J5V.model Require Import BclLexer BclParser BclFmt BclLsp.
+From J5V.proofs Require Import BclPosProofs BclLexerProofs BclParserProofs BclTextProofs BclFmtProofs BclFmtFullProofs BclLspProofs BclLspClampProofs BclDocBytesProofs.
 Import ListNotations.
 Local Open Scope Z_scope.
 
@@ -111,6 +111,42 @@ Theorem C19_offset_apply_is_line_apply : forall input es, fmt_diffs input = Ok e
 Proof. intros input es Ee Hw. apply (lsp_apply_lines input es Hw (fmt_diffs_shape input es Ee)). Qed.
 Print Assumptions C19_offset_apply_is_line_apply.
 
+(* ---- a protocol-conforming client (model/BclLsp.v) ------------------------------------------------ *)
+(* The server does no clamping of its own (genlsp/format.go sends (FromLine,0)-(ToLine,0), ToLine possibly =
+   number of lines); the protocol's rule does it on the client: a position whose line is beyond the last line
+   denotes the end of the document, a character beyond its line the end of the line (clamp_pos), and a client
+   applies edits by the byte offsets the positions denote (pos_offset, client_apply: any line, any UTF-16
+   character).  For the edits genlsp produces: clamping changes no position, except an end position on
+   line = number of lines (tes_clamp_free); the general client's result is exactly lsp_apply's; hence C19
+   for that client *)
+Definition C19_client_statement : Prop :=
+  forall input out, fmt_bytes input = Ok out -> nlines input < 4294967296 ->
+    exists tes, lsp_format input = Ok tes /\ tes_clamp_free (split_on 10 input) tes /\
+      strip_trailing_blank (split_on 10 (lsp_client_apply input tes)) = strip_trailing_blank (split_on 10 out).
+
+Theorem C19_client : C19_client_statement.
+Proof. exact lsp_client_statement. Qed.
+Print Assumptions C19_client.
+
+Theorem C19_clamping_is_identity : forall lines tes lo, 0 <= lo ->
+  tes_wf (Z.of_nat (length lines)) lo tes -> tes_clamp_free lines tes.
+Proof. exact tes_wf_clamp_free. Qed.
+Print Assumptions C19_clamping_is_identity.
+
+Theorem C19_client_apply_is_offset_apply : forall input tes, tes_wf (nlines input) 0 tes ->
+  lsp_client_apply input tes = lsp_apply (split_on 10 input) 0 tes.
+Proof. exact lsp_client_apply_is_lsp_apply. Qed.
+Print Assumptions C19_client_apply_is_offset_apply.
+
+(* with C09 (Fmt is idempotent on bytes): formatting an already formatted document offers edits that leave it
+   as it is — the editor reaches a fixed point after one format.  (On the real code the second edit list was
+   empty on every generated input; that stronger fact is observed by the run, not proved.) *)
+Theorem C19_format_twice_is_stable : forall input out, fmt_bytes input = Ok out ->
+  exists es, fmt_diffs out = Ok es /\ edits_wf (nlines out) 0 es /\
+    strip_trailing_blank (apply_edits (split_on 10 out) 0 es) = strip_trailing_blank (split_on 10 out).
+Proof. exact fmt_diffs_of_output_stable. Qed.
+Print Assumptions C19_format_twice_is_stable.
+
 (* the shape of every edit FmtDiffs returns, for every input (accepted or not): no edit starts beyond
    the last line of the document, and every replacement text is empty or ends with a newline (so
    "the lines a text stands for", text_lines, drops nothing) *)
@@ -129,3 +165,13 @@ Example C19_example :
                         mkEdit 5 6 [125;10;47;47;32;99;10]%N] /\
     forallb blank_line (skipn (Z.to_nat (last (map fd_to (merge_diffs ds)) 0)) (split_on 10 src)) = true.
 Proof. cbv zeta. eexists. split; [vm_compute; reflexivity|]. split; vm_compute; reflexivity. Qed.
+
+(* non-vacuity for the client: the last edit of a document without a final newline ends on line = #lines
+   (the one clamped position); multi-byte and astral characters in the replaced lines *)
+Example C19_example_client :
+  let src := [97;32;123;10;98;61;34;240;159;152;128;195;169;34]%N in     (* a { / b="(U+1F600)(e-acute)" -- no final newline *)
+  exists tes out, lsp_format src = Ok tes /\ fmt_bytes src = Ok out /\
+    map (fun te => (lp_line (te_start te), lp_line (te_end te))) tes = [(1, 2)] /\
+    clamp_pos (split_on 10 src) (mkLP 2 0) = mkLP 1 7 /\
+    lsp_client_apply src tes = out.
+Proof. cbv zeta. do 2 eexists. split; [vm_compute; reflexivity|]. split; [vm_compute; reflexivity|]. repeat split; vm_compute; reflexivity. Qed.
